@@ -6,7 +6,7 @@ Confirmed-silent patches are stored under /verif/seeded/benign-<tag>-nK/."""
 import glob, json, os, re, shutil, subprocess, sys
 src = sys.argv[1].rstrip('/')
 tag = os.path.basename(src).replace('seed4_', '').replace('seed5_', '').replace('seed6_', '').replace('seed9_', '')
-SB = '/tmp/sb'
+SB = os.environ.get('SB_DIR', '/tmp/sb')
 PROPS = [f"C{i:02d}" for i in range(1, 20)]
 def sh(cmd, timeout=7200):
     p = subprocess.run(cmd, shell=True, capture_output=True, text=True, timeout=timeout)
